@@ -105,7 +105,7 @@ pub fn run(ctx: &mut Ctx) {
         use crate::props::c07::{SOp, Shipped};
         let mut ops = vec![SOp::Create { exclude_hit: false, alg_supported: true, deny: false, rk }, SOp::Create { exclude_hit: false, alg_supported: true, deny: false, rk: !rk }];
         for (target, removed, again) in v {
-            ops.push(SOp::Assert { target, prf: false, deny: false, removed_during_prompt: removed });
+            ops.push(SOp::Assert { target, prf: false, deny: false, removed_during_prompt: removed, advanced_during_prompt: 0 });
             if again {
                 ops.push(SOp::Create { exclude_hit: false, alg_supported: true, deny: false, rk });
             }
